@@ -2,6 +2,7 @@ package rules
 
 import (
 	"go/ast"
+	"go/token"
 	"go/types"
 
 	"sialint/internal/cfgx"
@@ -9,7 +10,7 @@ import (
 )
 
 func init() {
-	Explanations["C17"] = "Decides structural necessary conditions of backend agreement for the layered key-value stores in package chain and the Bolt adapter: (R1) every single-key read that consults a base layer (MemDB.buckets or the wrapped DBBucket.Get) does so only after an overlay miss and on the negative edge of an explicit membership test of the pending-deletes map, and every iterator ranges over both the base layer and the pending puts while guarding each base entry by the puts/dels tests; (R2) put removes the key from the pending deletes and delete removes it from the pending puts on every path; (R3) MemDB.Flush drains both overlays and MemDB.Cancel removes their entries (not just the per-bucket contents), CacheDB.Flush ends in the backend's Flush after clearing its overlay and leaves no entry in its field-held scratch lists at any exit, CacheDB.Cancel cancels both layers, and BoltChainDB.Flush/Cancel commit/roll back and reset the single open write transaction which every bucket access obtains through one helper. NOT decided: equality of results over arbitrary operation sequences (needs execution), bbolt's own semantics, iteration order."
+	Explanations["C17"] = "Decides structural necessary conditions of backend agreement for the layered key-value stores in package chain and the Bolt adapter: (R1) every single-key read that consults a base layer (MemDB.buckets or the wrapped DBBucket.Get) does so only after an overlay miss and on the negative edge of an explicit membership test of the pending-deletes map, and every iterator ranges over both the base layer and the pending puts while guarding each base entry by the puts/dels tests; (R2) put removes the key from the pending deletes and delete removes it from the pending puts on every path; (R3) MemDB.Flush drains both overlays and MemDB.Cancel removes their entries (not just the per-bucket contents), CacheDB.Flush ends in the backend's Flush after clearing its overlay and leaves no entry in its field-held scratch lists at any exit, CacheDB.Cancel cancels both layers, and BoltChainDB.Flush/Cancel commit/roll back and reset the single open write transaction which every bucket access obtains through one helper. (R4) for every overlay map whose missing per-bucket entry lets a per-key operation return its bucket-does-not-exist error, MemDB.CreateBucket stores an entry on every path to a success return. NOT decided: equality of results over arbitrary operation sequences (needs execution), bbolt's own semantics, iteration order."
 
 	register(&Rule{ID: "C17.R1", Prop: "C17", Floor: 6,
 		Doc: "layer agreement: base-layer reads only after overlay miss and on the negative edge of a pending-delete test; iterators range over base and pending puts and guard base entries",
@@ -17,6 +18,9 @@ func init() {
 	register(&Rule{ID: "C17.R2", Prop: "C17", Floor: 2,
 		Doc: "exclusivity: a pending put removes the pending delete of the key and vice versa",
 		Run: c17r2})
+	register(&Rule{ID: "C17.R4", Prop: "C17", Floor: 2,
+		Doc: "a created bucket accepts every per-key operation: CreateBucket stores an entry in each overlay whose missing entry makes put/delete reject the bucket",
+		Run: c17r4})
 	register(&Rule{ID: "C17.R3", Prop: "C17", Floor: 7,
 		Doc: "flush/cancel coverage for MemDB, CacheDB and BoltChainDB",
 		Run: c17r3})
@@ -24,8 +28,101 @@ func init() {
 
 type kvFields struct{ buckets, puts, dels *types.Var }
 
+// getKV finds the three layers of the in-memory store by what they are, not by name or by the struct that holds
+// them: a struct of package chain with exactly two fields whose innermost maps hold byte strings and one whose
+// innermost map holds nothing (the pending deletes) — MemDB itself, or a per-bucket record it keeps —; of the two
+// byte-string layers the committed one is the one MemDB.Flush copies the other (the pending puts) into.
 func getKV(p *ir.Prog) kvFields {
-	return kvFields{p.Field("chain", "MemDB", "buckets"), p.Field("chain", "MemDB", "puts"), p.Field("chain", "MemDB", "dels")}
+	inner := func(t types.Type) (bytesVal, emptyVal bool) {
+		for {
+			mt, ok := t.Underlying().(*types.Map)
+			if !ok {
+				return false, false
+			}
+			if b, ok := mt.Key().Underlying().(*types.Basic); !ok || b.Kind() != types.String {
+				return false, false
+			}
+			switch e := mt.Elem().Underlying().(type) {
+			case *types.Map:
+				t = mt.Elem()
+				continue
+			case *types.Slice:
+				if b, ok := e.Elem().Underlying().(*types.Basic); ok && b.Kind() == types.Byte {
+					return true, false
+				}
+			case *types.Struct:
+				if e.NumFields() == 0 {
+					return false, true
+				}
+			}
+			return false, false
+		}
+	}
+	var kv kvFields
+	var two []*types.Var
+	scope := p.Package("chain").Types.Scope()
+	for _, name := range scope.Names() {
+		tn, ok := scope.Lookup(name).(*types.TypeName)
+		if !ok {
+			continue
+		}
+		st, ok := tn.Type().Underlying().(*types.Struct)
+		if !ok {
+			continue
+		}
+		var bs, es []*types.Var
+		for i := 0; i < st.NumFields(); i++ {
+			b, e := inner(st.Field(i).Type())
+			if b {
+				bs = append(bs, st.Field(i))
+			}
+			if e {
+				es = append(es, st.Field(i))
+			}
+		}
+		if len(bs) == 2 && len(es) == 1 {
+			if two != nil {
+				ir.Fail("two candidate layer structs for the in-memory store")
+			}
+			two, kv.dels = bs, es[0]
+		}
+	}
+	if two == nil {
+		ir.Fail("the in-memory store's three layers (two byte-string maps, one set of pending deletes) not found")
+	}
+	flush := p.Expand(p.Fn("chain", "MemDB", "Flush"), ir.ExpandOpt{Key: "kv"})
+	ir.Walk(flush.Body, false, func(x ast.Node) {
+		rs, ok := x.(*ast.RangeStmt)
+		if !ok {
+			return
+		}
+		src := lhsFieldA(flush, rs.X)
+		if src != two[0] && src != two[1] {
+			return
+		}
+		for _, w := range flush.WritesIn(rs.Body, false) {
+			if ix, ok := ast.Unparen(w.LHS).(*ast.IndexExpr); ok {
+				if dst := lhsFieldA(flush, ix.X); dst != src && (dst == two[0] || dst == two[1]) {
+					kv.puts, kv.buckets = src, dst
+				}
+			}
+		}
+	})
+	if kv.puts == nil {
+		ir.Fail("MemDB.Flush does not copy one byte-string layer into the other")
+	}
+	// the rules below are stated over layers kept as maps of per-bucket maps (layer[bucket][key]); another
+	// representation (one record per bucket holding the three maps) needs them restated, not guessed at
+	for _, fld := range []*types.Var{kv.buckets, kv.puts, kv.dels} {
+		outer, ok := fld.Type().Underlying().(*types.Map)
+		if ok {
+			_, ok = outer.Elem().Underlying().(*types.Map)
+		}
+		if !ok {
+			ir.Fail("the in-memory store's layer %s is not a map of per-bucket maps; C17's rules are stated over that representation", fld.Name())
+		}
+	}
+	return kv
 }
 
 // mapTests finds comma-ok lookups in maps whose innermost field is fld inside
@@ -640,4 +737,107 @@ func c17r3(c *Ctx) {
 func isZero(f *ir.Func, e ast.Expr) bool {
 	v, ok := f.ConstInt(e)
 	return ok && v == 0
+}
+
+// c17r4: a bucket that exists accepts puts and deletes alike. A per-key operation of the in-memory store rejects a
+// bucket ("does not exist") only where the overlay map it is about to write has no entry for the bucket and the
+// bucket is not committed either; a bucket created since the last flush exists *only* as such overlay entries. So
+// for every overlay whose missing entry lets an operation fail, the bucket constructor stores an entry on every
+// path to its success return — otherwise deletes (or puts) fail in a fresh bucket on the in-memory store and on
+// every CacheDB (whose overlay never has committed buckets), while the Bolt store accepts them.
+func c17r4(c *Ctx) {
+	kv := getKV(c.P)
+	kvv := c.P.Views("chain", ir.ExpandOpt{Key: "kv"})
+	type need struct {
+		by *ir.Func
+		at token.Pos
+	}
+	needs := map[*types.Var]need{}
+	for _, raw := range c.P.MethodsOf("chain", "MemDB") {
+		m := kvv.Of(raw)
+		if m == nil || m.Type.Results == nil {
+			continue
+		}
+		g := m.Graph()
+		for _, fld := range []*types.Var{kv.puts, kv.dels} {
+			var nilEdges []*cfgx.Edge
+			for _, n := range g.Nodes {
+				if n.Block == nil || n.Block.Cond != n.AST || len(n.Succs) != 2 {
+					continue
+				}
+				x, nonNilOnTrue, ok := m.NilTest(n.AST.(ast.Expr))
+				if !ok {
+					continue
+				}
+				ix, isIx := ast.Unparen(x).(*ast.IndexExpr)
+				if !isIx || lhsFieldA(m, ix.X) != fld {
+					continue
+				}
+				if nonNilOnTrue {
+					nilEdges = append(nilEdges, n.Succs[1])
+				} else {
+					nilEdges = append(nilEdges, n.Succs[0])
+				}
+			}
+			if len(nilEdges) == 0 {
+				continue
+			}
+			for _, r := range g.Returns() {
+				if _, isRet := r.AST.(*ast.ReturnStmt); !isRet || m.ClassifyReturn(r) != ir.RetError {
+					continue
+				}
+				if m.OnlyVia(r, nilEdges) {
+					if _, have := needs[fld]; !have {
+						needs[fld] = need{m, r.Pos()}
+					}
+				}
+			}
+		}
+	}
+	create := kvv.Of(c.P.Fn("chain", "MemDB", "CreateBucket"))
+	g := create.Graph()
+	c.VisitGraph(create)
+	for _, fld := range []*types.Var{kv.puts, kv.dels} {
+		nd, ok := needs[fld]
+		if !ok {
+			continue
+		}
+		c.VisitGraph(nd.by)
+		ob := c.Ob(create, "created-bucket-accepts:"+fld.Name(), create.Body.Pos())
+		stores := func(n *cfgx.Node) bool {
+			if n.AST == nil {
+				return false
+			}
+			for _, w := range create.WritesIn(n.AST, false) {
+				if ix, ok := ast.Unparen(w.LHS).(*ast.IndexExpr); ok && lhsFieldA(create, ix.X) == fld && w.RHS != nil && !isNilExpr(create, w.RHS) {
+					return true
+				}
+			}
+			return false
+		}
+		reach := g.Reach([]*cfgx.Visit{cfgx.StartAt(g.Entry, 0)}, stores)
+		bad := false
+		for _, r := range g.Returns() {
+			if _, isRet := r.AST.(*ast.ReturnStmt); !isRet || create.ClassifyReturn(r) == ir.RetError {
+				continue
+			}
+			if v, leak := reach[r]; leak {
+				ob.Bad(c.Witness(v), "%s rejects a bucket without an entry in MemDB.%s (error return at %s), but CreateBucket can succeed at %s without storing one: that operation fails in a bucket created since the last flush — always on a CacheDB — while the other backends accept it", nd.by.Name(), fld.Name(), c.P.Pos(nd.at), c.P.Pos(r.Pos()))
+				bad = true
+				break
+			}
+		}
+		if !bad {
+			ob.OK("every success return of CreateBucket follows a store into MemDB.%s", fld.Name())
+		}
+	}
+}
+
+func isNilExpr(f *ir.Func, e ast.Expr) bool {
+	id, ok := ast.Unparen(e).(*ast.Ident)
+	if !ok {
+		return false
+	}
+	_, isNil := f.ObjOf(id).(*types.Nil)
+	return isNil
 }
